@@ -236,7 +236,7 @@ def latest_cases(chk, drv, work):
         npts = [max(n, 4) for n in npts]
         if it % 2 == 1:
             npts = [npts[0]] * 4
-        times = sorted(set(rng.choice([rng.randrange(10 ** k, 10 ** (k + 1)) for k in range(6)] + [0, 9, 10, 99999, 100000, 999999])
+        times = sorted(set(rng.choice([rng.randrange(10 ** k, 10 ** (k + 1)) for k in range(7)] + [0, 9, 10, 99999, 100000, 999999, 1000000, 10000001])
                            for _ in range(rng.randint(2, 6) if it % 3 else 1)))      # every third folder holds ONE checkpoint
         if len(times) == 1 and times[0] == 0:
             times = [rng.choice([7, 120, 4500])]
@@ -246,12 +246,12 @@ def latest_cases(chk, drv, work):
         base = np.random.RandomState(it).normal(size=npts)
         cfile = os.path.join(work, 'c_%d.json' % it)
         write_constants(cfile, npts)
-        # (times stay below 10^6: beyond six digits the lexicographic maximum is not the newest file, observation F10)
+        # (times of more than six digits included: the names are then no longer ordered like the times; finding F10, repaired)
         # documented keyword overrides of the set-up (the radial / velocity domain): what the run used is what the parameter file must
         # give back at the restart
         over = rng.choice([{}, {}, {'rMin': 1.0, 'rMax': 9.0}, {'rMax': 11.5}, {'vMax': 6.0}, {'rMin': 0.5, 'vMax': 8.25}])
         attrs_w = {}
-        aux_times = sorted(t for t in ({max(times) + 7, min(times) + 1, rng.choice(times) + 3, 5} - set(times)) if t < 10 ** 6)
+        aux_times = sorted({max(times) + 7, min(times) + 1, rng.choice(times) + 3, 5} - set(times))
 
         def prepare():
             comm = MPI.COMM_WORLD
@@ -353,14 +353,15 @@ def latest_cases(chk, drv, work):
     real = ["{0}/{1}_{2:06}.h5".format('a_b.c/d', 'grid', t) for t in ts]
     if mo['names'] != real:
         chk.diff('"{:06}" names', {'times': ts[:13]}, mo['names'][:13], real[:13])
-    if mo['latest'] != max(real) or mo['time'] != int(max(real).split('_')[-1].split('.')[0]):
-        chk.diff('max(names) / parsed time', {'n': len(ts)}, [mo['latest'], mo['time']], max(real))
+    newest = max(real, key=lambda f: int(f.split('_')[-1].split('.')[0]))
+    if mo['latest'] != newest or mo['time'] != max(ts):
+        chk.diff('latest name / parsed time', {'n': len(ts)}, [mo['latest'], mo['time']], [newest, max(ts)])
     chk.evaluations += len(ts)
     six = [t for t in ts if t < 10 ** 6]
     if max("%06d" % t for t in six) != "%06d" % max(six):
         chk.fail('C18:lex-order', 'lexicographic order of %06d names differs from numeric order below 10^6', {'times': six[:20]})
-    chk.notes['F10_observation'] = ('"%06d" % 1000000 < "%06d" % 999999 is ' + str("%06d" % 1000000 < "%06d" % 999999) +
-                                    ': beyond six digits max(glob) no longer picks the newest checkpoint (property read as <= 6 digits)')
+    chk.notes['F10'] = ('"%06d" % 1000000 < "%06d" % 999999 is ' + str("%06d" % 1000000 < "%06d" % 999999) +
+                        ': beyond six digits the lexicographic maximum is not the newest checkpoint; the code selects by parsed time since the fix')
 
 
 # ------------------------------------------------------------------------------------------------
